@@ -162,6 +162,7 @@ impl SessS {
                 _ => r is Err && final(self).st == old(self).st && final(writer).sent@ == old(writer).sent@,
             },
             r is Ok ==> final(writer).sent@ == old(writer).sent@.push(end_frame(old(self).ch, error)) && final(writer).failures@ == old(writer).failures@,
+            r is Ok ==> final(writer).sent@.drop_last() =~= old(writer).sent@ && final(writer).sent@.last() == end_frame(old(self).ch, error) && final(writer).sent@.len() == old(writer).sent@.len() + 1,
             r is Err ==> final(writer).sent@ == old(writer).sent@,
             (old(self).st is Mapped || old(self).st is EndReceived) && r is Err ==> final(writer).failures@ > old(writer).failures@,
             final(writer).failures@ >= old(writer).failures@,
@@ -274,7 +275,7 @@ impl SessionEngine {
 
 //@@ fn file=fe2o3-amqp/src/session/engine.rs impl=`~impl<S>SessionEngine<S>whereS:endpoint::SessionEndpoint<State=SessionState>+SendBound+Sync+'static,` name=on_incoming
 //@@ attr #[verifier::loop_isolation(false)]
-//@@ subst `result?;` => `match result { Ok(v) => v, Err(e) => return Err(state_err_into(e)) };` rule=R24
+//@@ subst `result?;` => `match result { Ok(v) => v, Err(e) => return Err(state_err_into(e)) };` rule=optional-R24
 //@@ subst `&self.outgoing` => `&mut self.outgoing` rule=R9
 //@@ subst `SessionStopReason::from(reason.clone())` => `stop_reason_from_conn(reason.clone())` rule=R16
 //@@ subst `|_v0|` => `|_v0: ChanSendError|` rule=R5
@@ -309,15 +310,6 @@ impl SessionEngine {
                         let ghost sl = self.outgoing.sent@;
 //@@ loopend 1
                         proof { lemma_ext_trans(old(self).outgoing.sent@, sl, self.outgoing.sent@); }
-//@@ entry
-        let ghost mut smid: Seq<SessionFrame> = Seq::empty();
-//@@ at `self.session.send_end(&mut self.outgoing, None)` before
-                    proof { smid = self.outgoing.sent@; }
-//@@ at `match result { Ok(v) => v, Err(e) => return Err(state_err_into(e)) };` before
-                    proof {
-                        let s1 = self.outgoing.sent@;
-                        if s1 == smid.push(end_frame(old(self).session.ch, None)) { assert(s1.drop_last() =~= smid); }
-                    }
 //@@ end
 }
 
